@@ -72,6 +72,46 @@ Proof.
   apply andb_true_iff in H as [_ H]. apply Z.eqb_eq in H. subst. eauto.
 Qed.
 
+(* what the routing decision hands to the round trip: the pool key names the routed registration *)
+Definition hq_routed_ok (st : hp_state) (routed : option hroute) (key : hp_key) : Prop :=
+  match routed with
+  | Some r =>
+      (exists d l u e, key = KRoute d l u e (rc_id (rt_pay r))) /\
+      rc_id (rt_pay r) <= hp_seq st /\
+      (forall r' : hroute, rp_in r' (hp_routes st) -> rc_id (rt_pay r') = rc_id (rt_pay r) ->
+                           rc_owner (rt_pay r') = rc_owner (rt_pay r))
+  | None => exists h, key = KHost h
+  end.
+
+Lemma hq_routed_ok_here st host path user : hq_inv st ->
+  hq_routed_ok st (hp_routed st host path user) (hp_key_of st host path user).
+Proof.
+  intros [Hwf [Hids [Huniq _]]]. unfold hp_routed, hp_key_of, hq_routed_ok.
+  destruct (rt_get_vhost (hp_routes st) (rt_canon_or_empty host) path user) as [r|] eqn:G; [|eauto].
+  destruct (rq_get_vhost_best _ _ _ _ _ Hwf G) as [Hin _].
+  split; [simpl; eauto|]. split; [apply Hids; exact Hin|].
+  intros r' Hr' E. rewrite (Huniq r' r Hr' Hin E). reflexivity.
+Qed.
+
+(* the round trip keeps the invariant *)
+Lemma hq_roundtrip_inv st routed key rid dialed st' out : hq_inv st -> hq_routed_ok st routed key ->
+  hp_roundtrip st routed key rid dialed = Some (st', out) -> hq_inv st'.
+Proof.
+  intros Hinv Hok Hs. pose proof Hinv as [Hwf [Hids [Huniq [Hidle Hbusy]]]].
+  unfold hp_roundtrip in Hs. destruct dialed.
+  - destruct routed as [r|]; inversion Hs; subst; clear Hs; [|exact Hinv].
+    destruct Hok as [[d [l [u [e Hk]]]] [Hi Ho]].
+    split; [exact Hwf|]. simpl. split; [exact Hids|]. split; [exact Huniq|]. split; [exact Hidle|].
+    intros i c [Hc|Hc]; [|apply (Hbusy i), Hc]. inversion Hc; subst.
+    unfold hq_conn_ok. simpl. split; [exact Hi|].
+    intros r' Hr' E. symmetry. apply Ho; assumption.
+  - destruct (hp_take key (hp_idle st)) as [[c idle']|] eqn:T; [|discriminate].
+    inversion Hs; subst; clear Hs. destruct (hq_take_spec _ _ _ _ T) as [Hc [_ Hsub]].
+    split; [exact Hwf|]. simpl. split; [exact Hids|]. split; [exact Huniq|].
+    split; [intros x Hx; apply Hidle, Hsub, Hx|].
+    intros i x [Hx|Hx]; [inversion Hx; subst; apply Hidle, Hc|apply (Hbusy i), Hx].
+Qed.
+
 (* stage 1: everything except group operations and overtaken requests *)
 Definition hq_basic_op (o : hp_op) : Prop :=
   match o with
@@ -84,7 +124,7 @@ Lemma hq_step_inv0 st o st' out : hq_basic_op o -> hq_inv st -> hp_step st o = S
 Proof.
   intros Hng Hinv Hs. pose proof Hinv as [Hwf [Hids [Huniq [Hidle Hbusy]]]].
   destruct o as [d l u owner|d l u|rid cc proto host path user dialed|rid|name d l u owner|d l u|rid cc proto host path user dialed btw|chost cuser];
-    simpl in Hs; simpl in Hng; try contradiction; unfold hp_roundtrip, hp_key_of, hp_routed in Hs.
+    simpl in Hng; try contradiction; cbn [hp_step] in Hs.
   - (* Register *)
     destruct (rt_add (hp_routes st) d l u (mkRc d l u owner (hp_seq st + 1) [])) as [rs|] eqn:A;
       inversion Hs; subst; clear Hs.
@@ -117,20 +157,9 @@ Proof.
     split. { intros r r' Hr Hr'. apply Hin' in Hr as [Hr _]. apply Hin' in Hr' as [Hr' _]. auto. }
     split; [intros c []|intros i c Hc; apply Hmono, (Hbusy i), Hc].
   - (* Begin *)
-    destruct dialed.
-    + destruct (rt_get_vhost (hp_routes st) (rt_canon_or_empty host) path user) as [r|] eqn:G.
-      * inversion Hs; subst; clear Hs.
-        destruct (rq_get_vhost_best _ _ _ _ _ Hwf G) as [Hin _].
-        split; [exact Hwf|]. simpl. split; [exact Hids|]. split; [exact Huniq|]. split; [exact Hidle|].
-        intros i c [Hc|Hc]; [|apply (Hbusy i), Hc]. inversion Hc; subst.
-        unfold hq_conn_ok. simpl. split; [apply Hids; exact Hin|].
-        intros r' Hr' E. rewrite (Huniq r' r Hr' Hin E). reflexivity.
-      * inversion Hs; subst. exact Hinv.
-    + destruct (hp_take _ (hp_idle st)) as [[c idle']|] eqn:T; [|discriminate].
-      inversion Hs; subst; clear Hs. destruct (hq_take_spec _ _ _ _ T) as [Hc [_ Hsub]].
-      split; [exact Hwf|]. simpl. split; [exact Hids|]. split; [exact Huniq|].
-      split; [intros x Hx; apply Hidle, Hsub, Hx|].
-      intros i x [Hx|Hx]; [inversion Hx; subst; apply Hidle, Hc|apply (Hbusy i), Hx].
+    destruct (hp_routed st host path user) as [r|] eqn:R0.
+    + rewrite <- R0 in Hs. eapply hq_roundtrip_inv; [exact Hinv|apply hq_routed_ok_here; exact Hinv|exact Hs].
+    + inversion Hs; subst. exact Hinv.
   - (* End *)
     destruct (hp_take_busy rid (hp_busy st)) as [[c busy']|] eqn:T.
     + inversion Hs; subst; clear Hs. destruct (hq_take_busy_spec _ _ _ _ T) as [[i Hc] Hsub].
@@ -150,27 +179,6 @@ Definition hq_plain_op (o : hp_op) : Prop :=
   | HGroupJoin _ _ _ _ _ => False | HGroupLeave _ _ _ => False
   | _ => True
   end.
-
-(* what the routing decision hands to the round trip: the pool key names the routed registration *)
-Definition hq_routed_ok (st : hp_state) (routed : option hroute) (key : hp_key) : Prop :=
-  match routed with
-  | Some r =>
-      (exists d l u e, key = KRoute d l u e (rc_id (rt_pay r))) /\
-      rc_id (rt_pay r) <= hp_seq st /\
-      (forall r' : hroute, rp_in r' (hp_routes st) -> rc_id (rt_pay r') = rc_id (rt_pay r) ->
-                           rc_owner (rt_pay r') = rc_owner (rt_pay r))
-  | None => exists h, key = KHost h
-  end.
-
-Lemma hq_routed_ok_here st host path user : hq_inv st ->
-  hq_routed_ok st (hp_routed st host path user) (hp_key_of st host path user).
-Proof.
-  intros [Hwf [Hids [Huniq _]]]. unfold hp_routed, hp_key_of, hq_routed_ok.
-  destruct (rt_get_vhost (hp_routes st) (rt_canon_or_empty host) path user) as [r|] eqn:G; [|eauto].
-  destruct (rq_get_vhost_best _ _ _ _ _ Hwf G) as [Hin _].
-  split; [simpl; eauto|]. split; [apply Hids; exact Hin|].
-  intros r' Hr' E. rewrite (Huniq r' r Hr' Hin E). reflexivity.
-Qed.
 
 (* Register / UnRegister as state transformers: facts *)
 Lemma hq_reg_step_facts st o : hq_inv st ->
@@ -209,25 +217,6 @@ Proof.
   intros r' Hr' E. destruct (Hr r' Hr') as [Hold|Hnew]; [apply Ho; assumption|lia].
 Qed.
 
-(* the round trip keeps the invariant *)
-Lemma hq_roundtrip_inv st routed key rid dialed st' out : hq_inv st -> hq_routed_ok st routed key ->
-  hp_roundtrip st routed key rid dialed = Some (st', out) -> hq_inv st'.
-Proof.
-  intros Hinv Hok Hs. pose proof Hinv as [Hwf [Hids [Huniq [Hidle Hbusy]]]].
-  unfold hp_roundtrip in Hs. destruct dialed.
-  - destruct routed as [r|]; inversion Hs; subst; clear Hs; [|exact Hinv].
-    destruct Hok as [[d [l [u [e Hk]]]] [Hi Ho]].
-    split; [exact Hwf|]. simpl. split; [exact Hids|]. split; [exact Huniq|]. split; [exact Hidle|].
-    intros i c [Hc|Hc]; [|apply (Hbusy i), Hc]. inversion Hc; subst.
-    unfold hq_conn_ok. simpl. split; [exact Hi|].
-    intros r' Hr' E. symmetry. apply Ho; assumption.
-  - destruct (hp_take key (hp_idle st)) as [[c idle']|] eqn:T; [|discriminate].
-    inversion Hs; subst; clear Hs. destruct (hq_take_spec _ _ _ _ T) as [Hc [_ Hsub]].
-    split; [exact Hwf|]. simpl. split; [exact Hids|]. split; [exact Huniq|].
-    split; [intros x Hx; apply Hidle, Hsub, Hx|].
-    intros i x [Hx|Hx]; [inversion Hx; subst; apply Hidle, Hc|apply (Hbusy i), Hx].
-Qed.
-
 (* ... and reaches the owner of the ROUTED registration, or nothing when there was none *)
 Lemma hq_roundtrip_out st routed key rid dialed st' out : hq_inv st -> hq_routed_ok st routed key ->
   (forall r, routed = Some r -> rp_in r (hp_routes st) \/ hp_idle st = []) ->
@@ -254,6 +243,8 @@ Proof.
     simpl in Hng; try contradiction; try (refine (hq_step_inv0 st _ st' out _ Hinv Hs); exact I).
   cbn [hp_step] in Hs.
   destruct (hq_reg_step_facts st btw Hinv) as [Hinv1 [Hseq [Hr _]]].
+  destruct (hp_routed st host path user) as [r0|] eqn:R0; [|inversion Hs; subst; exact Hinv1].
+  rewrite <- R0 in Hs.
   eapply hq_roundtrip_inv; [exact Hinv1| |exact Hs].
   eapply hq_routed_ok_mono; [exact Hseq|exact Hr|apply hq_routed_ok_here; exact Hinv].
 Qed.
@@ -283,8 +274,11 @@ Lemma hq_begin_spec st rid cc proto host path user dialed st' out : hq_inv st ->
   out = hp_spec_out rc_owner (rt_abs (hp_routes st)) host path user.
 Proof.
   intros Hinv Hs. pose proof Hinv as [Hwf _]. rewrite <- (hq_routed_spec st host path user Hwf).
-  cbn [hp_step] in Hs. eapply hq_roundtrip_out; [exact Hinv|apply hq_routed_ok_here; exact Hinv| |exact Hs].
-  intros r E. left. unfold hp_routed in E. destruct (rq_get_vhost_best _ _ _ _ _ Hwf E) as [Hin _]. exact Hin.
+  pose proof (hq_routed_ok_here st host path user Hinv) as Hok.
+  cbn [hp_step] in Hs. destruct (hp_routed st host path user) as [r0|] eqn:R0; [|inversion Hs; subst; reflexivity].
+  eapply (hq_roundtrip_out st (Some r0)); [exact Hinv|exact Hok| |exact Hs].
+  intros r E. inversion E; subst r. left. unfold hp_routed in R0.
+  destruct (rq_get_vhost_best _ _ _ _ _ Hwf R0) as [Hin _]. exact Hin.
 Qed.
 
 Lemma hq_raced_spec st rid cc proto host path user dialed btw st' out : hq_inv st ->
@@ -292,12 +286,14 @@ Lemma hq_raced_spec st rid cc proto host path user dialed btw st' out : hq_inv s
   out = hp_spec_out rc_owner (rt_abs (hp_routes st)) host path user.
 Proof.
   intros Hinv Hs. pose proof Hinv as [Hwf _]. rewrite <- (hq_routed_spec st host path user Hwf).
+  pose proof (hq_routed_ok_here st host path user Hinv) as Hok.
   cbn [hp_step] in Hs.
   destruct (hq_reg_step_facts st btw Hinv) as [Hinv1 [Hseq [Hr Hkeep]]].
-  eapply hq_roundtrip_out; [exact Hinv1| | |exact Hs].
-  - eapply hq_routed_ok_mono; [exact Hseq|exact Hr|apply hq_routed_ok_here; exact Hinv].
-  - intros r E. destruct Hkeep as [Hkeep|Hnil]; [left|right; exact Hnil].
-    apply Hkeep. unfold hp_routed in E. destruct (rq_get_vhost_best _ _ _ _ _ Hwf E) as [Hin _]. exact Hin.
+  destruct (hp_routed st host path user) as [r0|] eqn:R0; [|inversion Hs; subst; reflexivity].
+  eapply (hq_roundtrip_out (hp_reg_step st btw) (Some r0));
+    [exact Hinv1|exact (hq_routed_ok_mono _ _ _ _ Hseq Hr Hok)| |exact Hs].
+  intros r E. inversion E; subst r. destruct Hkeep as [Hkeep|Hnil]; [left|right; exact Hnil].
+  apply Hkeep. unfold hp_routed in R0. destruct (rq_get_vhost_best _ _ _ _ _ Hwf R0) as [Hin _]. exact Hin.
 Qed.
 
 Theorem hq_request_reaches_current_best_match ops st rid cc proto host path user dialed st' out :
@@ -349,8 +345,9 @@ Proof.
   destruct (hp_step st o) as [[st1 out]|] eqn:S; [|discriminate].
   rewrite (IH _ _ Hr).
   destruct o as [d l u owner|d l u|rid cc proto host path user dialed|rid|name d l u owner|d l u|rid cc proto host path user dialed btw|chost cuser]; simpl in Ho; try contradiction; simpl in S.
-  - unfold hp_roundtrip in S. destruct dialed.
-    + destruct (hp_routed _ _ _ _); inversion S; subst; reflexivity.
+  - destruct (hp_routed st host path user) as [r0|]; [|inversion S; subst; reflexivity].
+    unfold hp_roundtrip in S. destruct dialed.
+    + inversion S; subst; reflexivity.
     + destruct (hp_take _ _) as [[c i]|]; inversion S; subst; reflexivity.
   - destruct (hp_take_busy _ _) as [[c i]|]; inversion S; subst; reflexivity.
   - destruct (rt_get_vhost _ _ _ _); inversion S; subst; reflexivity.
@@ -460,9 +457,7 @@ Proof.
   split; [exact E|]. subst out.
   assert (Hn : hp_routed st host path user = None).
   { unfold hp_routed. rewrite (rq_refines (hp_routes st) _ path user Hwf). exact Hb. }
-  cbn [hp_step] in Hs. rewrite Hn in Hs. unfold hp_roundtrip in Hs. destruct dialed.
-  - inversion Hs; reflexivity.
-  - destruct (hp_take _ _) as [[c i]|]; inversion Hs.
+  cbn [hp_step] in Hs. rewrite Hn in Hs. inversion Hs; reflexivity.
 Qed.
 
 (* after an overtaken request the pool is as sound as before: every later request of every later
